@@ -158,14 +158,14 @@ theorem served_records (s : Svc) (requester : Nat) (addr : Addr) (rid : Bytes) (
       (if ds.contains 0 then [s.localRec] else []) ++ tablePart s requester ds := by
   unfold Svc.sendNodesResponse
   simp only
-  rw [packetsOf_map, nodesPackets_flatten, Svc.nodesToSend_snd]
+  rw [packetsOf_map, nodesPackets_flatten, Serve.nodesToSend_snd]
   rfl
 
 /-- At most the configured maximum of table entries, plus the own record. -/
 theorem served_count (s : Svc) (requester : Nat) (ds : List Nat) (hmax : 1 ≤ s.cfg.maxNodesResponse) :
     (s.nodesToSend requester ds).2.length ≤ s.cfg.maxNodesResponse + 1 := by
-  rw [Svc.nodesToSend_snd]
-  have h1 := nodesByDistances_length_le s.cfg.kb s.now s.table
+  rw [Serve.nodesToSend_snd]
+  have h1 := Serve.nodesByDistances_length_le s.cfg.kb s.now s.table
     ((Svc.dedupAdj (Svc.sortNat ds)).filter (· != 0)) s.cfg.maxNodesResponse hmax
   have h2 := List.length_filter_le (fun n : Node Rec => n.key != requester)
     (s.table.nodesByDistances s.cfg.kb s.now ((Svc.dedupAdj (Svc.sortNat ds)).filter (· != 0))
@@ -181,7 +181,7 @@ exactly the non-zero requested distances. -/
 theorem served_distances (ds : List Nat) :
     ((Svc.dedupAdj (Svc.sortNat ds)).filter (· != 0)).Pairwise (· < ·) ∧
     ∀ d, d ∈ (Svc.dedupAdj (Svc.sortNat ds)).filter (· != 0) ↔ d ∈ ds ∧ d ≠ 0 := by
-  obtain ⟨h1, h2⟩ := Svc.normDistances ds
+  obtain ⟨h1, h2⟩ := Serve.normDistances ds
   refine ⟨h1.filter _, fun d => ?_⟩
   rw [List.mem_filter, h2]
   simp
@@ -266,17 +266,17 @@ theorem mem_sendNodesResponse {s : Svc} {requester : Nat} {addr : Addr} {rid : B
 
 /-- Every record `nodesToSend` collects is the own record or a stored / pending record of the table. -/
 theorem nodesToSend_sizes (s : Svc) (requester : Nat) (ds : List Nat) (hmax : 1 ≤ s.cfg.maxNodesResponse)
-    (P : Rec → Prop) (hown : P s.localRec) (htab : TVals P s.table) :
+    (P : Rec → Prop) (hown : P s.localRec) (htab : Serve.TVals P s.table) :
     ∀ r ∈ (s.nodesToSend requester ds).2, P r := by
   intro r hr
-  rw [Svc.nodesToSend_snd, List.mem_append] at hr
+  rw [Serve.nodesToSend_snd, List.mem_append] at hr
   rcases hr with hr | hr
   · by_cases h0 : ds.contains 0 = true
     · rw [if_pos h0, List.mem_singleton] at hr; rw [hr]; exact hown
     · rw [if_neg h0] at hr; cases hr
   · rw [List.mem_map] at hr
     obtain ⟨n, hn, rfl⟩ := hr
-    exact nodesByDistances_vals s.cfg.kb s.now s.table _ s.cfg.maxNodesResponse hmax htab n
+    exact Serve.nodesByDistances_vals s.cfg.kb s.now s.table _ s.cfg.maxNodesResponse hmax htab n
       (List.mem_filter.1 hn).1
 
 theorem nodesPackets_sound (recs : List Rec) (hsz : ∀ r ∈ recs, r.size < 1280 - 104) :
@@ -328,7 +328,7 @@ theorem served_fits_datagram (s : Svc) (requester : Nat) (addr : Addr) (rid : By
     nodesToSend_sizes s requester ds hmax.1 (fun r => r.size ≤ 300) hown
       (fun b hb => ⟨htab b hb, hpend b hb⟩)
   have hcount := served_count s requester ds hmax.1
-  have hlen := Svc.nodesPackets_length_le (s.nodesToSend requester ds).2
+  have hlen := Serve.nodesPackets_length_le (s.nodesToSend requester ds).2
   have hsum := nodesPackets_sound (s.nodesToSend requester ds).2
     (fun r hr => by have := hsz r hr; omega) recs hp
   rw [datagramLen_eq]
